@@ -48,6 +48,8 @@ func main() {
 		record(os.Args[2], os.Args[3], n)
 	case "judge":
 		judge(os.Args[2], os.Args[3])
+	case "reverify":
+		reverify(os.Args[2], os.Args[3])
 	default:
 		hx.Die("unknown mode %s", os.Args[1])
 	}
@@ -182,7 +184,11 @@ func buildMsgs() []*dns.Msg {
 
 	rnd := hx.Rand()
 	types := []string{"A 198.51.100.7", "AAAA 2001:db8::1", "TXT \"x\"", "NS n.example.org.", "CNAME Target.Example."}
-	for i := 0; i < 3; i++ {
+	nrand := 3
+	if hx.Thorough() {
+		nrand = 16
+	}
+	for i := 0; i < nrand; i++ {
 		m := new(dns.Msg)
 		owner := fmt.Sprintf("h%d.Zone%d.example.", rnd.Intn(1000), rnd.Intn(10))
 		m.SetQuestion(owner, dns.TypeANY)
@@ -445,40 +451,23 @@ func has(fs []fault, kind string, pos int) bool {
 	return false
 }
 
-// chainCase drives one MC_Tsig behaviour through the real session code: the receiver is a
-// dns.Transfer (ReadMsg verifies every envelope against the running MAC, timers only from the second);
-// chains of one envelope also go through dns.Conn.WriteMsg / ReadMsg.
+// chainCase drives one MC_Tsig behaviour through the real session code.  Chains go through
+// Transfer.In (inAxfr owns the timers-only switch; Transfer.ReadMsg verifies every envelope against
+// the running MAC): envelope 1 opens with the SOA, envelope L ends with it.  Chains of one envelope
+// also go through Transfer.ReadMsg and dns.Conn.WriteMsg / ReadMsg directly.
 func chainCase(v *vec, sum *hx.Summary, seen map[string]bool) {
 	seen[fmt.Sprintf("chain|%d|%v", v.L, v.Faults)] = true
 	secret := b64(secrets[1])
 	bad := b64(secrets[2])
 	tab := map[string]string{chainKey: secret, chainKeyUC: secret}
+	soa := "example. 60 IN SOA ns.example. host.example. 7 3600 600 86400 60"
 
-	run := func(useConn bool) {
-		fc := pipe.New()
-		var tr *dns.Transfer
-		var co *dns.Conn
-		q := new(dns.Msg)
-		q.SetAxfr("example.")
-		q.Id = 0x3131
-		now := time.Now().Unix()
-		q.SetTsig(chainKey, chainAlg, 300, now)
-		var err error
-		if useConn {
-			co = &dns.Conn{Conn: fc, TsigSecret: tab}
-			err = co.WriteMsg(q)
-		} else {
-			tr = &dns.Transfer{Conn: &dns.Conn{Conn: fc}, TsigSecret: tab}
-			err = tr.WriteMsg(q)
-		}
-		if err != nil || len(fc.Written) != 1 {
-			sum.Mis("tsig/chain:query-not-written", fmt.Sprintf("WriteMsg of a signed query: %v", err), v)
-			return
-		}
+	// the sender: signs L envelopes chained on the query's MAC, applies the faults of the behaviour
+	send := func(query []byte, now int64) [][]byte {
 		qm := new(dns.Msg)
-		if err := qm.Unpack(fc.Written[0][2:]); err != nil || qm.IsTsig() == nil {
+		if err := qm.Unpack(query); err != nil || qm.IsTsig() == nil {
 			sum.Mis("tsig/chain:query-unsigned", fmt.Sprintf("the query on the wire carries no TSIG (%v)", err), v)
-			return
+			return nil
 		}
 		prev := qm.IsTsig().MAC
 		timers := false
@@ -488,6 +477,12 @@ func chainCase(v *vec, sum *hx.Summary, seen map[string]bool) {
 			r.SetReply(qm)
 			r.Extra = nil
 			r.Answer = []dns.RR{rr(fmt.Sprintf("example. 60 IN TXT \"envelope %d\"", i))}
+			if i == 1 {
+				r.Answer = append([]dns.RR{rr(soa)}, r.Answer...)
+			}
+			if i == v.L {
+				r.Answer = append(r.Answer, rr(soa))
+			}
 			key, sec, ts := chainKey, secret, now
 			if has(v.Faults, "unknownkey", i) {
 				key, sec = "nokey.example.", bad
@@ -529,52 +524,133 @@ func chainCase(v *vec, sum *hx.Summary, seen map[string]bool) {
 		if len(envs) != v.Delivered {
 			hx.Die("chain %v: harness delivers %d envelopes, specification %d", v.Faults, len(envs), v.Delivered)
 		}
-		for _, e := range envs {
-			fc.Feed(pipe.Frame(e))
-		}
-		fc.EOF = true
-		via := "transfer"
-		if useConn {
-			via = "conn"
-		}
-		allok := true
-		for i := 0; i < len(v.Verdicts); i++ {
-			var m *dns.Msg
-			var err error
-			if useConn {
-				m, err = co.ReadMsg()
-			} else {
-				m, err = tr.ReadMsg()
-			}
-			// "verified" = no error and the message carries a TSIG (Conn.ReadMsg only verifies what is signed)
-			ok := err == nil && m != nil && m.IsTsig() != nil
-			if ok != (v.Verdicts[i] == 1) {
-				if ok {
-					sum.Mis("tsig/chain:"+via+":accepts-faulty-envelope:"+faultClass(v.Faults),
-						fmt.Sprintf("envelope %d of the delivered chain reported verified; faults %v", i+1, v.Faults), v)
-				} else {
-					sum.Mis("tsig/chain:"+via+":rejects-honest-envelope:"+faultClass(v.Faults),
-						fmt.Sprintf("envelope %d of the delivered chain rejected (%v); faults %v", i+1, err, v.Faults), v)
-				}
+		return envs
+	}
+	// what the receiver can observe of the specification's verdicts: it stops at the first rejection and
+	// at the closing SOA (envelope L); when everything delivered verified but the chain is short, the
+	// next read fails
+	want := append([]int(nil), v.Verdicts...)
+	if len(want) > v.L {
+		want = want[:v.L]
+	}
+	short := true
+	for _, x := range want {
+		short = short && x == 1
+	}
+	short = short && len(want) < v.L
+	if short {
+		want = append(want, 0)
+	}
+	compare := func(via string, got []bool, errs []string) {
+		for i := 0; i < len(want) || i < len(got); i++ {
+			switch {
+			case i >= len(got):
+				sum.Mis("tsig/chain:"+via+":envelope-not-reported", fmt.Sprintf("envelope %d never reported; faults %v", i+1, v.Faults), v)
 				return
-			}
-			allok = allok && ok
-		}
-		if allok && !useConn { // whatever follows the chain is not a verified envelope
-			if m, err := tr.ReadMsg(); err == nil {
-				sum.Mis("tsig/chain:"+via+":success-after-end", fmt.Sprintf("ReadMsg after the last envelope returned %v without error", m != nil), v)
+			case i >= len(want):
+				sum.Mis("tsig/chain:"+via+":extra-envelope", fmt.Sprintf("%d envelopes reported, expected %d; faults %v", len(got), len(want), v.Faults), v)
+				return
+			case got[i] && want[i] == 0:
+				sum.Mis("tsig/chain:"+via+":accepts-faulty-envelope:"+faultClass(v.Faults),
+					fmt.Sprintf("envelope %d of the delivered chain reported verified; faults %v", i+1, v.Faults), v)
+				return
+			case !got[i] && want[i] == 1:
+				sum.Mis("tsig/chain:"+via+":rejects-honest-envelope:"+faultClass(v.Faults),
+					fmt.Sprintf("envelope %d of the delivered chain rejected (%s); faults %v", i+1, errs[i], v.Faults), v)
+				return
 			}
 		}
 	}
-	run(false)
+	query := func() *dns.Msg {
+		q := new(dns.Msg)
+		q.SetAxfr("example.")
+		q.Id = 0x3131
+		return q
+	}
+
+	// (a) Transfer.In -- not for header-ID alterations: TSIG does not cover the ID (the verdict stays
+	// "verified"), but a transfer has its own ID check (property C15) that hides the TSIG verdict
+	altersID := false
+	for _, f := range v.Faults {
+		altersID = altersID || f.Kind == "alter_id"
+	}
+	if !altersID {
+		fc := pipe.New()
+		now := time.Now().Unix()
+		fc.OnWrite = func(c *pipe.Conn, p []byte) {
+			for _, e := range send(p[2:], now) {
+				c.Feed(pipe.Frame(e))
+			}
+			c.EOF = true
+		}
+		tr := &dns.Transfer{Conn: &dns.Conn{Conn: fc}, TsigSecret: tab}
+		q := query()
+		q.SetTsig(chainKey, chainAlg, 300, now)
+		ch, err := tr.In(q, "pipe")
+		if err != nil {
+			sum.Mis("tsig/chain:in:error", fmt.Sprintf("Transfer.In: %v", err), v)
+			return
+		}
+		var got []bool
+		var errs []string
+		guard := time.After(20 * time.Second)
+	drain:
+		for {
+			select {
+			case e, ok := <-ch:
+				if !ok {
+					break drain
+				}
+				got = append(got, e.Error == nil)
+				errs = append(errs, errText(e.Error))
+			case <-guard:
+				hx.Die("Transfer.In did not finish on an in-memory connection (faults %v)", v.Faults)
+			}
+		}
+		compare("in", got, errs)
+	}
 	seq := false
 	for _, f := range v.Faults {
 		if f.Kind == "drop" || f.Kind == "dup" || f.Kind == "swap" {
 			seq = true
 		}
 	}
-	if v.L == 1 && !seq {
-		run(true)
+	if v.L != 1 || seq {
+		return
+	}
+	// (b) one envelope read with Transfer.ReadMsg, (c) with Conn.ReadMsg
+	for _, via := range []string{"transfer", "conn"} {
+		fc := pipe.New()
+		now := time.Now().Unix()
+		q := query()
+		q.SetTsig(chainKey, chainAlg, 300, now)
+		var tr *dns.Transfer
+		var co *dns.Conn
+		var err error
+		if via == "conn" {
+			co = &dns.Conn{Conn: fc, TsigSecret: tab}
+			err = co.WriteMsg(q)
+		} else {
+			tr = &dns.Transfer{Conn: &dns.Conn{Conn: fc}, TsigSecret: tab}
+			err = tr.WriteMsg(q)
+		}
+		if err != nil || len(fc.Written) != 1 {
+			sum.Mis("tsig/chain:"+via+":query-not-written", fmt.Sprintf("WriteMsg of a signed query: %v", err), v)
+			continue
+		}
+		for _, e := range send(fc.Written[0][2:], now) {
+			fc.Feed(pipe.Frame(e))
+		}
+		fc.EOF = true
+		var m *dns.Msg
+		if via == "conn" {
+			m, err = co.ReadMsg()
+		} else {
+			m, err = tr.ReadMsg()
+		}
+		// "verified" = no error and the message carries a TSIG (Conn.ReadMsg only verifies what is signed)
+		ok := err == nil && m != nil && m.IsTsig() != nil
+		compare(via, []bool{ok}, []string{errText(err)})
 	}
 }
 
@@ -670,6 +746,10 @@ func record(which, out string, n int) {
 	algs := []string{dns.HmacSHA1, dns.HmacSHA224, dns.HmacSHA256, dns.HmacSHA384, dns.HmacSHA512, "HMAC-SHA256."}
 	keys := []string{"key.example.", "k.", "Mixed.Case.Key."}
 	idx := 0
+	allBits := 2 // cases whose every bit is flipped; a sample of 96 bits for the others
+	if hx.Thorough() {
+		allBits = 8
+	}
 	for c := 0; c < n; c++ {
 		m := msgs[rnd.Intn(len(msgs))].Copy()
 		if c < len(msgs) {
@@ -681,7 +761,7 @@ func record(which, out string, n int) {
 		si := rnd.Intn(len(secrets))
 		var reqmac []byte
 		if rnd.Intn(3) > 0 {
-			reqmac = make([]byte, []int{16, 20, 32, 64, 1}[rnd.Intn(5)])
+			reqmac = make([]byte, []int{16, 20, 32, 64, 10}[rnd.Intn(5)])
 			rnd.Read(reqmac)
 		}
 		timers := rnd.Intn(3) == 0
@@ -756,7 +836,7 @@ func record(which, out string, n int) {
 		// every single-bit alteration of the signed octets (all of them for the first cases, a sample afterwards)
 		nb := 8 * len(signed)
 		for b := 0; b < nb; b++ {
-			if c >= 2 && rnd.Intn(nb) >= 96 {
+			if c >= allBits && rnd.Intn(nb) >= 96 {
 				continue
 			}
 			o := append([]byte(nil), signed...)
@@ -816,7 +896,7 @@ func record(which, out string, n int) {
 			emit("param:reqmac-shorter", signed, reqmac[:len(reqmac)-1], timers, now, "hook", table)
 			emit("param:reqmac-longer", signed, append(append([]byte(nil), reqmac...), 0), timers, now, "public", single)
 		} else {
-			emit("param:reqmac-given", signed, []byte{0}, timers, now, "hook", table)
+			emit("param:reqmac-given", signed, bytes.Repeat([]byte{0}, 16), timers, now, "hook", table)
 			emit("param:reqmac-given", signed, tf.mac, timers, now, "public", single)
 		}
 		// unsigned messages
@@ -846,18 +926,13 @@ type specLine struct {
 	TimeOk bool   `json:"timeok"`
 }
 
-func whatClass(w string) string {
-	if i := strings.IndexByte(w, ':'); i >= 0 && strings.HasPrefix(w, "bit") {
-		return "bit"
-	}
-	return w
-}
+func whatClass(w string) string { return w }
 
 func judge(tracePath, specPath string) {
 	var sum hx.Summary
 	spec := map[int]*specLine{}
 	hx.ReadNDJSON(specPath, func(i int, s *specLine) { spec[s.I] = s })
-	nacc := 0
+	nacc, nundet := 0, 0
 	hx.ReadNDJSON(tracePath, func(i int, e *verifyEv) {
 		if e.Ev != "verify" && e.Ev != "env" {
 			return
@@ -918,8 +993,11 @@ func judge(tracePath, specPath string) {
 		if expect {
 			nacc++
 		}
+		if !determined {
+			nundet++
+		}
 		switch {
-		case real && !expect && (determined || s.St != "ok" || why == "mac" || why == "time" || why == "unknown-key"):
+		case real && !expect && (s.St != "ok" || s.Strict):
 			sum.Mis("tsig/verify:accepts-invalid:"+why+":"+e.Via, fmt.Sprintf("%s: verified although the specification says %s", e.What, why), e)
 		case !real && expect && determined:
 			sum.Mis("tsig/verify:rejects-valid:"+whatClass(e.What)+":"+e.Via, fmt.Sprintf("%s: rejected (%s) although MAC and time are valid", e.What, e.Got), e)
@@ -930,5 +1008,39 @@ func judge(tracePath, specPath string) {
 	})
 	sum.Nontrivial = nacc
 	sum.Note("accepting_events", nacc)
+	sum.Note("verdict_not_asserted_events", nundet)
+	sum.Print()
+}
+
+// ---------------------------------------------------------------- reverify (replay of one recorded event)
+
+// reverify re-executes the real verification of recorded events (their octets, request MAC, timers-only
+// setting and clock value) and rewrites the observed verdict; used by `bin/check C11 --replay`.
+func reverify(in, out string) {
+	w := hx.NewWriter(out)
+	defer w.Close()
+	var sum hx.Summary
+	hx.ReadNDJSON(in, func(i int, e *verifyEv) {
+		sum.Evaluations++
+		st := map[string]string{}
+		for k, v := range e.Secrets {
+			st[k] = b64(secrets[v])
+		}
+		if e.Via == "public" { // one secret whatever the key name: give it to the name on the wire
+			m := new(dns.Msg)
+			if m.Unpack(e.Octets.Bytes()) == nil && m.IsTsig() != nil {
+				st[m.IsTsig().Hdr.Name] = b64(secrets[e.Secrets[""]])
+			}
+		}
+		var got error
+		p := hx.Catch(func() {
+			got = dns.VerifTsigVerifyAt(e.Octets.Bytes(), dns.VerifTsigSecretProvider(st), hex.EncodeToString(e.Reqmac.Bytes()), e.Timers, t48(e.Now))
+		})
+		e.Got = errText(got)
+		if p != "" {
+			e.Got = "panic: " + p
+		}
+		w.Emit(e)
+	})
 	sum.Print()
 }
